@@ -14,6 +14,7 @@ import (
 	"fmt"
 	"go/ast"
 	"go/parser"
+	"go/printer"
 	"go/token"
 	"os"
 	"path/filepath"
@@ -48,7 +49,8 @@ type SkelSpec struct {
 }
 
 // RouteSpec: a tag-less `switch { case cond: return recv.handler(...) … default: … }` inside Func becomes
-//   def <Name> (<var> : <VarTy>) : String := if cond₁ then "handler₁" else … else "default"
+//
+//	def <Name> (<var> : <VarTy>) : String := if cond₁ then "handler₁" else … else "default"
 type RouteSpec struct {
 	Dir      string            `json:"dir"`
 	Recv     string            `json:"recv"`
@@ -58,16 +60,41 @@ type RouteSpec struct {
 	VarTy    string            `json:"var_ty"`    // its Lean type
 	MethodNS string            `json:"method_ns"` // namespace of methods called on Var (e.g. "packet.Type")
 	ConstNS  string            `json:"const_ns"`
-	PkgNS    map[string]string `json:"pkg_ns"`    // Go package selector -> Gen namespace (e.g. "packet" -> "packet")
+	PkgNS    map[string]string `json:"pkg_ns"` // Go package selector -> Gen namespace (e.g. "packet" -> "packet")
+}
+
+// LocalSpec: constants that live INSIDE a function body (C12: the window sizes of iocopy.UDP).
+//
+//	consts: `const name = <const expr>` declared anywhere in the body (func literals included)
+//	makes:  `name := make([]T, <const expr>)`                       -> the length
+//	cmps:   nth `<lhs> <op> <const expr>` comparison in the body    -> the right-hand side
+//
+// A name that occurs k > 1 times is emitted as name_0 … name_{k-1} in source order.
+type LocalCmp struct {
+	Name string `json:"name"`
+	LHS  string `json:"lhs"`
+	Op   string `json:"op"`
+	Nth  int    `json:"nth"` // which occurrence in source order (0 = first)
+}
+
+type LocalSpec struct {
+	Dir    string     `json:"dir"`
+	Recv   string     `json:"recv"`
+	Func   string     `json:"func"`
+	NS     string     `json:"ns"`
+	Consts []string   `json:"consts"`
+	Makes  []string   `json:"makes"`
+	Cmps   []LocalCmp `json:"cmps"`
 }
 
 type Spec struct {
-	Module  string     `json:"module"`  // output file Gen/<Module>.lean
-	Imports []string   `json:"imports"` // other Gen modules this one refers to
-	Consts []ConstSpec `json:"consts"`
-	Preds  []PredSpec  `json:"preds"`
-	Skels  []SkelSpec  `json:"skels"`
-	Routes []RouteSpec `json:"routes"`
+	Module  string      `json:"module"`  // output file Gen/<Module>.lean
+	Imports []string    `json:"imports"` // other Gen modules this one refers to
+	Consts  []ConstSpec `json:"consts"`
+	Locals  []LocalSpec `json:"locals"`
+	Preds   []PredSpec  `json:"preds"`
+	Skels   []SkelSpec  `json:"skels"`
+	Routes  []RouteSpec `json:"routes"`
 }
 
 var fset = token.NewFileSet()
@@ -740,6 +767,117 @@ func selStr(e ast.Expr) string {
 	return "?"
 }
 
+// ---------------------------------------------------------------- function-local constants
+
+// srcStr renders an expression as Go source text.
+func srcStr(e ast.Expr) string {
+	var sb strings.Builder
+	printer.Fprint(&sb, fset, e)
+	return sb.String()
+}
+
+func genLocals(root string, ls *LocalSpec, out *strings.Builder) {
+	p := loadPkg(root, ls.Dir)
+	key := ls.Func
+	if ls.Recv != "" {
+		key = ls.Recv + "." + ls.Func
+	}
+	fd, ok := p.funcs[key]
+	if !ok {
+		die("locals: function %s not found in %s", key, ls.Dir)
+	}
+	// local constants shadow/extend the package constants while evaluating
+	lp := &pkgInfo{consts: map[string]*constDecl{}, funcs: p.funcs}
+	for k, v := range p.consts {
+		lp.consts[k] = v
+	}
+	type hit struct {
+		name string
+		val  int64
+	}
+	var hits []hit
+	want := func(xs []string, n string) bool {
+		for _, x := range xs {
+			if x == n {
+				return true
+			}
+		}
+		return false
+	}
+	cmpSeen := map[string]int{}
+	ast.Inspect(fd.Body, func(n ast.Node) bool {
+		switch n := n.(type) {
+		case *ast.GenDecl:
+			if n.Tok != token.CONST {
+				return true
+			}
+			for i, s := range n.Specs {
+				vs := s.(*ast.ValueSpec)
+				for j, nm := range vs.Names {
+					if j >= len(vs.Values) {
+						continue
+					}
+					lp.consts[nm.Name] = &constDecl{expr: vs.Values[j], iota: i}
+					if want(ls.Consts, nm.Name) {
+						hits = append(hits, hit{nm.Name, evalConst(lp, vs.Values[j], i, 0).i})
+					}
+				}
+			}
+		case *ast.AssignStmt:
+			if len(n.Lhs) == 1 && len(n.Rhs) == 1 {
+				id, ok1 := n.Lhs[0].(*ast.Ident)
+				ce, ok2 := n.Rhs[0].(*ast.CallExpr)
+				if ok1 && ok2 && want(ls.Makes, id.Name) {
+					if f, ok := ce.Fun.(*ast.Ident); ok && f.Name == "make" && len(ce.Args) >= 2 {
+						hits = append(hits, hit{id.Name, evalConst(lp, ce.Args[1], 0, 0).i})
+					}
+				}
+			}
+		case *ast.BinaryExpr:
+			for _, c := range ls.Cmps {
+				if n.Op.String() != c.Op || srcStr(n.X) != c.LHS {
+					continue
+				}
+				cmpSeen[c.Name]++
+				if cmpSeen[c.Name]-1 != c.Nth {
+					continue
+				}
+				hits = append(hits, hit{c.Name, evalConst(lp, n.Y, 0, 0).i})
+			}
+		}
+		return true
+	})
+	count := map[string]int{}
+	for _, h := range hits {
+		count[h.name]++
+	}
+	for _, nm := range append(append(append([]string{}, ls.Consts...), ls.Makes...), func() []string {
+		var r []string
+		for _, c := range ls.Cmps {
+			r = append(r, c.Name)
+		}
+		return r
+	}()...) {
+		if count[nm] == 0 {
+			die("locals: %s not found in %s", nm, key)
+		}
+	}
+	seen := map[string]int{}
+	fmt.Fprintf(out, "namespace %s\n", ls.NS)
+	for _, h := range hits {
+		nm := h.name
+		if count[h.name] > 1 {
+			nm = fmt.Sprintf("%s_%d", h.name, seen[h.name])
+			seen[h.name]++
+		}
+		if h.val < 0 {
+			die("locals: negative value for %s", nm)
+		}
+		fmt.Fprintf(out, "def %s : Nat := %d\n", leanIdent(nm), h.val)
+	}
+	fmt.Fprintf(out, "end %s\n\n", ls.NS)
+}
+
 // ---------------------------------------------------------------- main
 
 func writeIfChanged(path, content string) {
@@ -784,6 +922,9 @@ func genModule(repo string, spec *Spec, outDir string) {
 			}
 		}
 		fmt.Fprintf(&cs, "end %s\n\n", c.NS)
+	}
+	for i := range spec.Locals {
+		genLocals(repo, &spec.Locals[i], &cs)
 	}
 	for i := range spec.Preds {
 		genPred(repo, &spec.Preds[i], &cs)
